@@ -666,6 +666,9 @@ fn main() {
                 props: opts.get("props").map(|s| s.split_whitespace().map(|x| x.to_string()).collect()).unwrap_or_default(),
                 nocanary: true,
                 nodecreases: true,
+                // `[opaque]`: the helper's body is outside the extractable subset: only its signature is emitted (no contract, body
+                // not verified); its callers then know nothing about it and only their absolute obligations are decided
+                trusted: opts.contains_key("opaque"),
                 ..Default::default()
             };
             let mut fmaps = maps.clone();
@@ -1334,7 +1337,7 @@ fn emit_fn(
     if std::env::var("VX_LOGGING_NOT_PURE").is_ok() && rw.log.iter().any(|l| l.contains("logging::")) {
         rw.unsupported.push("a client/src/logging function does more than invoke tracing macros: R5 does not apply".into());
     }
-    if !rw.unsupported.is_empty() {
+    if !rw.unsupported.is_empty() && !d.trusted {
         die(&format!("{} :: {} :: {}: {}", d.file, d.selector, d.name, rw.unsupported.join("; ")));
     }
     // R18: lifted retain closures become associated functions of the same impl block
